@@ -297,7 +297,7 @@ def run(ctx):
     res.floor("C02-R3", 12)
     res.floor("C02-R4", 5)
     res.floor("C02-R5", 4)
-    res.floor("C02-R6", 4)
+    res.floor("C02-R6", 2)
     res.floor("C02-R7", 12)
     res.floor("C02-R8", 3)
     return res
